@@ -117,10 +117,189 @@ def _worker_init(mir_path, srcroot, kf, seed, step_cap, opts):
     from .engine import Engine
     prog = Program(open(mir_path).read(), srcroot, extra_src=[os.path.join(os.path.dirname(srcroot), 'harness')])
     _W['prog'] = prog
-    _W['mk'] = lambda: Engine(prog, kf_listed=kf, seed=seed, step_cap=step_cap)
-    _W['E'] = _W['mk']()
-    for k, v in (opts or {}).items():
-        setattr(_W['E'], k, v)
+    def mk(alt=None):
+        e = Engine(prog, kf_listed=kf, seed=seed, step_cap=step_cap, alt=alt)
+        for k, v in (opts or {}).items():
+            setattr(e, k, v)
+        return e
+    _W['mk'] = mk
+    _W['E'] = mk()
+    _W['cur'] = _W['E']
+
+
+def _watchdog():
+    """a solver call that neither returns nor honours its time limit cannot be aborted from Python: leave the
+    process; the driver re-runs the work unit once with the fallback solver and otherwise reports a gap"""
+    while True:
+        time.sleep(2)
+        e = _W.get('cur')
+        d = getattr(e, 'deadline', None) if e is not None else None
+        if d is not None and time.time() > d:
+            os._exit(86)
+
+
+def _worker_main(conn, initargs):
+    import threading
+    _worker_init(*initargs)
+    threading.Thread(target=_watchdog, daemon=True).start()
+    while True:
+        try:
+            job = conn.recv()
+        except (EOFError, OSError):
+            break
+        if job is None:
+            break
+        args, alt = job
+        if alt:
+            if 'E_alt' not in _W:
+                _W['E_alt'] = _W['mk']('sat')
+            _W['cur'] = _W['E_alt']
+        else:
+            _W['cur'] = _W['E']
+        try:
+            res = _explore(args)
+        except BaseException:
+            res = _lost_result(args, 'worker exception: ' + traceback.format_exc()[-800:])
+        conn.send(res)
+
+
+def _lost_result(args, msg):
+    hname, prefix, budget = args
+    return hname, [{'outcome': 'gap', 'msg': msg, 'decisions': prefix, 'inputs': [], 'obs': [], 'steps': 0,
+                    'checks': [], 'covers': [], 'kf': [], 'violations': []}], [], \
+        {'queries': 0, 'qtime': 0.0, 'branches': 0, 'fns': [], 'models': [], 'bounds': [], 'xq': []}
+
+
+class _Handle:
+    def __init__(self, pool, args):
+        self.pool = pool
+        self.args = args
+        self.alt = False
+        self.res = None
+
+    def ready(self):
+        if self.res is None:
+            self.pool.pump()
+        return self.res is not None
+
+    def get(self):
+        return self.res
+
+
+class HPool:
+    """process pool whose workers may be lost (see _watchdog)"""
+
+    def __init__(self, n, initargs):
+        import collections
+        self.initargs = initargs
+        self.workers = []
+        self.queue = collections.deque()
+        self.kills = {}
+        self.t_pump = 0.0
+        for _ in range(n):
+            self._spawn()
+
+    def _spawn(self):
+        parent, child = mp.Pipe()
+        p = mp.Process(target=_worker_main, args=(child, self.initargs), daemon=True)
+        p.start()
+        child.close()
+        w = {'p': p, 'c': parent, 'job': None}
+        self.workers.append(w)
+        return w
+
+    def apply_async(self, fn, args):
+        h = _Handle(self, args[0])
+        self.queue.append(h)
+        return h
+
+    def _lost(self, h, code):
+        hname = h.args[0]
+        k = self.kills[hname] = self.kills.get(hname, 0) + 1
+        log(f'  [watchdog] worker lost (exit {code}) on {hname} prefix of {len(h.args[1])} decisions'
+            f'{" (fallback solver)" if h.alt else ""}; lost so far for this harness: {k}')
+        if not h.alt and k <= 8:
+            h.alt = True
+            h.args = (h.args[0], h.args[1], min(h.args[2], 8))
+            self.queue.appendleft(h)
+        else:
+            h.res = _lost_result(h.args, 'solver hang: the worker had to be killed because a z3 call neither finished '
+                                 'nor honoured its time limit' + (' (also with the SAT fallback)' if h.alt else ''))
+
+    def pump(self):
+        now = time.time()
+        if now - self.t_pump < 0.002:
+            return
+        self.t_pump = now
+        for w in list(self.workers):
+            h = w['job']
+            dead = False
+            if h is not None:
+                try:
+                    if w['c'].poll():
+                        h.res = w['c'].recv()
+                        w['job'] = None
+                        h = None
+                except (EOFError, OSError):
+                    dead = True
+            if not dead and not w['p'].is_alive():
+                dead = True
+            if dead:
+                self.workers.remove(w)
+                try:
+                    w['c'].close()
+                except OSError:
+                    pass
+                w['p'].join(1)
+                if h is not None and h.res is None:
+                    self._lost(h, w['p'].exitcode)
+                self._spawn()
+                continue
+            if w['job'] is None and self.queue:
+                h = self.queue.popleft()
+                try:
+                    w['c'].send((h.args, h.alt))
+                    w['job'] = h
+                except (OSError, BrokenPipeError):
+                    self.queue.appendleft(h)
+
+    def cancel(self, hname):
+        """drop the queued work units of one harness and stop the ones in flight (their workers are replaced)"""
+        n = 0
+        for h in list(self.queue):
+            if h.args[0] == hname:
+                self.queue.remove(h)
+                h.res = (hname, [], [h.args[1]], _lost_result(h.args, '')[3])
+                n += 1
+        for w in list(self.workers):
+            h = w['job']
+            if h is not None and h.args[0] == hname:
+                w['p'].terminate()
+                w['p'].join(2)
+                self.workers.remove(w)
+                try:
+                    w['c'].close()
+                except OSError:
+                    pass
+                h.res = (hname, [], [h.args[1]], _lost_result(h.args, '')[3])
+                n += 1
+                self._spawn()
+        return n
+
+    def __enter__(self):
+        return self
+
+    def __exit__(self, *a):
+        for w in self.workers:
+            try:
+                w['c'].send(None)
+            except (OSError, BrokenPipeError):
+                pass
+        for w in self.workers:
+            w['p'].join(2)
+            if w['p'].is_alive():
+                w['p'].terminate()
+        return False
 
 
 def find_harness(prog, name):
@@ -134,7 +313,7 @@ def _explore(args):
     """explore the subtree below `prefix` up to `budget` paths; return results + leftover prefixes"""
     hname, prefix, budget = args
     from .values import ModelGap
-    E = _W['E']
+    E = _W.get('cur') or _W['E']
     entry = find_harness(_W['prog'], hname)
     stack = [prefix]
     out = []
@@ -142,7 +321,8 @@ def _explore(args):
     q0, t0, b0 = E.nqueries, E.qtime, E.nbranches
     E.bounds_seen = set()
     E.xq = []
-    while stack and n < budget:
+    t_job = time.time()
+    while stack and n < budget and (n == 0 or time.time() - t_job < 90):
         p = stack.pop()
         try:
             r = E.run_path(entry, p)
@@ -216,6 +396,7 @@ class HarnessResult:
         self.name = name
         self.xq = []
         self.xseen = 0
+        self.cancelled = False
         self.paths = 0
         self.ok = 0
         self.panics = []
@@ -289,10 +470,15 @@ def explore_harnesses(pool, names, max_paths, seed, time_budget=None):
                     hr.ok += 1
                 hr.witnesses.append((r['inputs'], r['obs'], r['checks'], r['outcome'], r['msg']))
             over = hr.paths >= max_paths or (time_budget and time.time() - t0 > time_budget) \
-                or len(hr.violations) + len(hr.panics) > 200 or len(hr.gaps) > 50
+                or len(hr.violations) + len(hr.panics) > 200 or len(hr.gaps) > 20
             if over:
                 if left:
                     hr.truncated = True
+                if not hr.cancelled and hasattr(pool, 'cancel'):
+                    # enough found (or too much unknown) for this harness: do not wait for the units in flight
+                    hr.cancelled = True
+                    if pool.cancel(hname):
+                        hr.truncated = True
                 continue
             rnd.shuffle(left)
             # split leftover prefixes into jobs
@@ -411,8 +597,7 @@ def run_one(pid, cfg, tier, seed, base, repo, mir, binary, listed, t_setup, kani
     max_paths = cfg.get('max_paths', {}).get(tier, 200000 if tier == 'quick' else 3000000)
     opts = {'tier': tier}
     ncpu = int(os.environ.get('VERIF_JOBS', '16'))
-    with mp.Pool(ncpu, initializer=_worker_init,
-                 initargs=(mir, repo, set(listed), seed, cfg.get('step_cap', 3_000_000), opts)) as pool:
+    with HPool(ncpu, (mir, repo, set(listed), seed, cfg.get('step_cap', 3_000_000), opts)) as pool:
         res = explore_harnesses(pool, names, max_paths, seed, cfg.get('time_budget', {}).get(tier))
     t_explore = time.time() - t0
     # ---- native replay -------------------------------------------------------------
